@@ -355,6 +355,48 @@ def runWriter : List Resp → Bytes → List Call → Bytes × Bool
     | (s', true) => runWriter s' acc cs
     | (_, false) => (acc, false)
 
+/-! ### a writer that tracks an incomplete state -/
+
+/-- `runWriter` that also returns the unused part of the schedule -/
+def runCalls : List Resp → Bytes → List Call → List Resp × Bytes × Bool
+  | s, acc, [] => (s, acc, true)
+  | sched, acc, .write bs :: cs =>
+    match writeAll sched acc bs with
+    | (s', acc', true) => runCalls s' acc' cs
+    | (s', acc', false) => (s', acc', false)
+  | sched, acc, .flush :: cs =>
+    match flushCall sched with
+    | (s', true) => runCalls s' acc cs
+    | (s', false) => (s', acc, false)
+
+/-- a writer that tracks an incomplete state (Parquet `SerializedFileWriter`: a row group whose
+`on_close` did not complete leaves `row_group_index ≠ row_groups.len()`, and
+`assert_previous_writer_closed` then refuses `next_row_group`/`finish`/`close`/`into_inner`) -/
+structure WState where
+  sched : List Resp
+  acc : Bytes
+  poisoned : Bool
+
+/-- one API call (`write`, `flush`, `finish`, …) = a list of sink calls; it is refused without
+touching the sink once an earlier call failed, and a failure poisons the writer -/
+def apiCall (st : WState) (cs : List Call) : WState × Bool :=
+  if st.poisoned then (st, false)
+  else
+    match runCalls st.sched st.acc cs with
+    | (s', acc', ok) => (⟨s', acc', !ok⟩, ok)
+
+/-- a session: API calls in order (the caller may keep calling after an error) -/
+def apiSeq : WState → List (List Call) → WState × List Bool
+  | st, [] => (st, [])
+  | st, c :: cs =>
+    let r := apiCall st c
+    let rs := apiSeq r.1 cs
+    (rs.1, r.2 :: rs.2)
+
+/-- all bytes of a session's calls, in order -/
+def sessionOutput (ops : List (List Call)) : Bytes := output ops.flatten
+
+
 /-! ## (d) line-delimited records -/
 
 /-- A record tokenizer as a byte automaton (`TapeDecoder::decode`): `idle` is the state
